@@ -17,7 +17,7 @@ PROPERTY = 'C05'
 ISOLATE = False          # no toolkit code runs in-process; the Rust harness is stateless per request
 LEVEL = 'fault_enumeration'
 TIERS = {
-    'quick': {'runs': 2400, 'wall': 70, 'min_budget': 40},
+    'quick': {'runs': 2400, 'wall': 70, 'min_budget': 20},
     'thorough': {'runs': 400000, 'wall': 900, 'min_budget': 120},
 }
 RULE = ('one run = one seeded base triple (guided generator stepping R1 / unguided short program over the opcode alphabet / '
@@ -136,7 +136,7 @@ def classify(triple, ctx, kind, extra):
     saved = set(T.FLAGS)
     try:
         flags = sorted(T.ALL_FLAGS)
-        for n in range(1, len(flags) + 1):
+        for n in range(1, 3):
             for off in itertools.combinations(flags, n):
                 T.FLAGS.clear(); T.FLAGS.update(T.ALL_FLAGS - set(off))
                 if compare(triple, ctx, stepwise=True) is None:
@@ -175,6 +175,8 @@ def execute(sc, ctx):
         out.violate('rust == R1 (base triple, stepwise)', classify(triple, ctx, bad[0], bad[3]), bad[1])
 
     def variant(fault, label):
+        if len(out.violations) >= 2:
+            return          # enough evidence from this run; keep a broken tree from costing minutes
         vt, fired = F.apply(triple, fault)
         if not fired:
             return
